@@ -33,7 +33,47 @@ def gen_seq(ctx, k):
     held_by_stall = False
     released = False
     used_root_stall = False
+    def checkpoint():
+        sc.add('flush', 'quiesce', f'mark cp{len(cps)}')
+        wired = set(fl.wire)
+        cps.append({ad4: sum(1 for (_t, _d, u) in lst if u in wired) for ad4, lst in subs.items()})
+
+    def pattern_budget_then_stall(ad):
+        """messages left over in the node's queue because of the BUDGET (not submitted during a stall), then the node stalls, every awaited
+        answer arrives while it is stalled, nothing new is submitted, the stall ends: the leftovers must go out now"""
+        nonlocal uid, held_by_stall, released
+        for t in [rng.choice(big), rng.choice(big), rng.choice(big)] + [rng.choice(small) for _ in range(rng.randrange(0, 3))]:
+            nm, ad2, a, data = gen.random_call(rng, ad, names=[rng.choice(byt[t])], hot=0.2, long_bias=0.05)
+            if ad2 != ad:
+                continue
+            sc.add(call(nm, *S.tokens(nm, ad, a)))
+            fl.send(ad, t, uid)
+            subs[ad].append((t, data, uid))
+            uid += 1
+            checkpoint()
+        fl.stall(ad, True)
+        sc.add(up(model.build_msg(ad, 0, STALL, b'\x01')))
+        checkpoint()
+        n_ = fl.node(ad)
+        while n_.out:
+            rt = rng.choice(model.resp_types(n_.out[0]['type']))
+            fl.uplink(ad, rt)
+            sc.add(up(answer_msg(rng, ad, rt)))
+            checkpoint()
+        if n_.held:
+            held_by_stall = True
+        before = len(fl.wire)
+        fl.stall(ad, False)
+        if len(fl.wire) > before:
+            released = True
+        sc.add(up(model.build_msg(ad, 0, STALL, b'\x00')))
+        checkpoint()
+    pattern_at = rng.randrange(0, 30) if rng.random() < 0.35 else -1
     for i in range(rng.randrange(10, 70)):
+        if i == pattern_at:
+            cand = [x for x in nodes if x != (0, 0, 0) and not fl.blocked_by_stall(x)]
+            if cand:
+                pattern_budget_then_stall(rng.choice(cand))
         r = rng.random()
         ad = rng.choice(nodes)
         n = fl.node(ad)
@@ -182,7 +222,7 @@ def eval_stress(ctx, r, meta):
 
 def run(ctx):
     ctx.rule = ('trees of up to three address levels, random sequences of MSG_STALL=1/0 notices (nested ancestor/descendant in both orders, repeated, '
-                'unstall without stall), sends of zero/small/large-response requests to nodes inside and outside, in-order answers; checkpoint after '
+                'unstall without stall), sends of zero/small/large-response requests to nodes inside and outside, in-order answers, the pattern budget-leftovers / stall / all answers / unstall; checkpoint after '
                 'every step; stress: 2-8 sender threads after a fully processed stall notice. non-trivial = distinct history in which a message was '
                 'held because of a stall and later released')
     ctx.assumptions = ['reference model vlib/flow.py', 'a stall notice counts from the quiescent point after it was fed (sequential part)']
